@@ -14,7 +14,7 @@ import parsing
 
 RULE = ('exhaustive: all strings of length <= 5 (quick) / <= 6 (thorough) over the 8-letter token alphabet with no two '
         'adjacent plain words, strict and non-strict, rendered with single spaces and with a seeded random layout (case, '
-        'Unicode white space, U+0130 in unknown words); generated single-word tables; non-trivial = length >= 2; '
+        'Unicode white space, U+0130 in unknown words, the same unknown word in several casings on one shared Licensing); generated single-word tables; non-trivial = length >= 2; '
         'distinct by (text, strict, table)')
 ASSUMPTIONS = ['the table has no aliases and its keys contain no white space; no two words that are neither operators nor '
                'parentheses are adjacent in the input']
@@ -34,6 +34,27 @@ def check_text(L, s, strict):
     return None, d, m
 
 
+def reproduce(T, before, s, strict):
+    """The disagreement on a fresh Licensing that first parsed the texts of ``before`` (both tokenizers)."""
+    L = make_licensing(T)
+    for b, st in before:
+        check_text(L, b, st)
+    return check_text(L, s, strict)[0]
+
+
+def minimal_before(T, seen, s, strict):
+    """Smallest history found that still shows the disagreement on a fresh Licensing: none, one earlier text sharing a
+    word with ``s``, or everything parsed so far on the shared instance."""
+    if reproduce(T, [], s, strict):
+        return []
+    words = set(s.lower().split())
+    cands = [(b, st) for b, st in seen if words & set(b.lower().split())]
+    for c in cands[-400:]:
+        if reproduce(T, [c], s, strict):
+            return [list(c)]
+    return [list(c) for c in seen[-2000:]]
+
+
 def run(rep, tier, seed):
     le = imp()
     rng = random.Random(seed)
@@ -41,11 +62,12 @@ def run(rep, tier, seed):
     rep.compared = 0
     maxlen = 6 if tier == 'thorough' else 5
     tables = [gen.TOKEN_TABLE, [('GPL-2.0+', [], False), ('Classpath-exception-2.0', [], True), ('mit', [], False)]]
-    texts = {'k': ['mit', 'MIT', 'Mit'], 'e': ['cpe', 'CPE'], 'u': ['zz', 'İx', 'or-later', 'andy'],
+    texts = {'k': ['mit', 'MIT', 'Mit'], 'e': ['cpe', 'CPE'], 'u': ['zz', 'ZZ', 'Zz', 'İx', 'or-later', 'Or-Later', 'andy', 'ANDY'],
              'and': ['and', 'AND', 'And'], 'or': ['or', 'OR'], 'with': ['with', 'WITH', 'wITh'], '(': ['('], ')': [')']}
     strings = [t for t in gen.token_strings(maxlen) if isolated(t)]
     L = make_licensing(gen.TOKEN_TABLE)
     encT = enc_table(gen.TOKEN_TABLE)
+    seen = []
     for strict in (False, True):
         cases = []
         for t in strings:
@@ -65,12 +87,15 @@ def run(rep, tier, seed):
         res = run_model(reqs)
         for i, (t, s) in enumerate(cases):
             err, d, m = check_text(L, s, strict)
+            seen.append((s, strict))
             rep.case(('tok', s, strict), nontrivial=(len(t) >= 2),
                      sample={'text': s, 'strict': strict, 'outcome': d[:2]} if len(t) == maxlen and i % 997 == 0 else None)
             rep.count('ok' if d[0] == 0 else 'error')
             if err:
-                rep.violations.append({'key': 'differs', 'kind': 'text', 'table': gen.TOKEN_TABLE, 'text': s, 'strict': strict,
-                                       'what': 'simple and default tokenizers disagree: ' + err})
+                if len(rep.violations) < 3:
+                    rep.violations.append({'key': 'differs', 'kind': 'text', 'table': gen.TOKEN_TABLE, 'text': s, 'strict': strict,
+                                           'before': minimal_before(gen.TOKEN_TABLE, seen[:-1], s, strict),
+                                           'what': 'simple and default tokenizers disagree: ' + err})
                 continue
             rep.compared += 2
             if (res[2 * i] != d or res[2 * i + 1] != m) and len(rep.broken) < 5:
@@ -87,7 +112,7 @@ def run(rep, tier, seed):
         for _ in range(rng.randint(1, 8)):
             r = rng.random()
             if r < 0.5 and not prev_plain:
-                parts.append(gen.vary_case(rng, rng.choice(keys)) if rng.random() < 0.6 else rng.choice(gen.UNKNOWN_WORDS))
+                parts.append(gen.vary_case(rng, rng.choice(keys)) if rng.random() < 0.6 else gen.vary_case(rng, rng.choice(gen.UNKNOWN_WORDS)))
                 prev_plain = True
             else:
                 parts.append(rng.choice(['and', 'or', 'with', '(', ')', 'AND', 'OR', 'With']))
@@ -107,5 +132,7 @@ def run(rep, tier, seed):
 def replay(payload):
     T = [tuple(x) for x in payload['table']]
     L = make_licensing([(k, a, e) for k, a, e in T])
+    for b, st in payload.get('before', []):
+        check_text(L, b, st)
     err, d, m = check_text(L, payload['text'], payload.get('strict', False))
     return err is None, err or 'same outcome %r' % (d,)
